@@ -1,6 +1,8 @@
 """C03 — Leaving a `with model:` block restores the model completely."""
 from contracts import c03_context as C
 from contracts import c03_objective as O
+from contracts import c02_remove_reactions_ctx as RRC
+from contracts import c12_rxn_arith as ARITH
 from props._generic import run_property, replay_with_driver
 
 LEVEL = "other"
@@ -12,7 +14,9 @@ OBJECTIVE_KEYS = ["set_objective", "set_objective.reset", "_valid_atoms", "Model
 
 
 def run(rep):
-    run_property(rep, KEYS, hooks=C.ALL_HOOKS, more=[(OBJECTIVE_KEYS, O.HOOKS)], lemmas=lambda: C.lemmas() + O.lemmas(), explanation=(
+    run_property(rep, KEYS, hooks=C.ALL_HOOKS, more=[(OBJECTIVE_KEYS, O.HOOKS), (RRC.KEYS, RRC.HOOKS), (ARITH.KEYS, ARITH.HOOKS)],
+                 lemmas=lambda: C.lemmas() + O.lemmas() + RRC.lemmas() + ARITH.lemmas(), explanation=(
+        "Context-aware model edits under contract with their undo registrations: Model.remove_reactions with a context open (remove_orphans=False; lists and models of any size): every change it makes to model pointers, model.reactions, back references and group members has its inverse registered in the INNERMOST context, nothing is registered for a change that was not made and nothing twice (ghost trace; per reaction [objective coefficients,] _populate_solver([r]), setattr(r, _model, model), reactions.add(r), x._reaction.add(r) per former referrer, g.add_members([r]) per former group), with the glue lemmas undo-restores (replaying the registered undos on the exit state gives back the entry views); Reaction.__imul__ in a context: exactly the two registrations _populate_solver([self]) and __imul__(1/c), lemma undo-restores (precondition c != 0). "
         "Deductive (kernel): HistoryManager.reset is proved to replay the recorded undo actions last-in-first-out and to empty the "
         "history (loop invariant over the recursive spec function run, with a decreasing variant), __call__ to append, get_context "
         "to return the innermost context of the object's model or None for every object shape, and the resettable wrapper to "
